@@ -45,23 +45,37 @@ def scan(name):
 
 @scan("verified_blinded_message_sites")
 def _s1():
-    return only_in("constructs", "VerifiedBlindedMessage", ZC_FILES + ZA_FILES,
+    return _no_backdoor(only_in("constructs", "VerifiedBlindedMessage", ZC_FILES + ZA_FILES,
                    {"impl SignatureRequestProof::verify_knowledge_of_opening"},
-                   "a blind-signable VerifiedBlindedMessage is constructed only inside SignatureRequestProof::verify_knowledge_of_opening")
+                   "a blind-signable VerifiedBlindedMessage is constructed only inside SignatureRequestProof::verify_knowledge_of_opening"), "VerifiedBlindedMessage")
+
+
+def _no_backdoor(r, ty):
+    """a capability type must not gain a constructor through a derive (Deserialize, Default) or a public field"""
+    sh = _shapes(ZC_FILES + ZA_FILES).get(ty)
+    if sh is None:
+        raise Machinery("scan: type %s not found" % ty)
+    bad = [d for d in sh["derives"] if d in ("Deserialize", "Default")]
+    r = dict(r)
+    r["what"] += "; the type derives neither Deserialize nor Default and has no public field"
+    if bad or not sh["all_fields_private"]:
+        r["ok"] = False
+        r["detail"] = "%s %s: values can be made without a verifying proof; %s" % (ty, ("derives " + "/".join(bad)) if bad else "has a public field", r["detail"])
+    return r
 
 
 @scan("verified_blinded_state_sites")
 def _s2():
-    return only_in("constructs", "VerifiedBlindedState", ZC_FILES + ZA_FILES,
+    return _no_backdoor(only_in("constructs", "VerifiedBlindedState", ZC_FILES + ZA_FILES,
                    {"impl EstablishProof::verify", "impl PayProof::verify"},
-                   "VerifiedBlindedState is constructed only inside the two zkAbacus proof verifiers")
+                   "VerifiedBlindedState is constructed only inside the two zkAbacus proof verifiers"), "VerifiedBlindedState")
 
 
 @scan("verified_blinded_close_state_sites")
 def _s3():
-    return only_in("constructs", "VerifiedBlindedCloseState", ZC_FILES + ZA_FILES,
+    return _no_backdoor(only_in("constructs", "VerifiedBlindedCloseState", ZC_FILES + ZA_FILES,
                    {"impl EstablishProof::verify", "impl PayProof::verify"},
-                   "VerifiedBlindedCloseState is constructed only inside the two zkAbacus proof verifiers")
+                   "VerifiedBlindedCloseState is constructed only inside the two zkAbacus proof verifiers"), "VerifiedBlindedCloseState")
 
 
 @scan("revocation_pair_release_sites")
